@@ -23,6 +23,8 @@ def main():
             pkg = re.search(r'^package (\w+)', src, re.M).group(1)
             pdir = {'server': 'internal/server', 'cmd': 'internal/cmd', 'main': 'cmd/kamal-proxy'}[pkg]
             tags = '-tags verif ' if '//go:build verif' in src else ''
+            if os.path.exists(f'{d}/NEEDS_RACE'):   # the demonstration fails only under the race detector (C18)
+                tags += '-race '
             tests = '|'.join(re.findall(r'^func (Test\w+)\(', src, re.M))
             demo_cmd = f'go test {tags}-vet=off -count=1 -run \'^({tests})$\' ./{pdir}/'
             suite_cmd = 'go test -vet=off -count=1 ./...'
